@@ -138,9 +138,16 @@ impl WorkStealingQueue {
     }
 
     /// Pop a task from the local queue (highest priority first)
+    ///
+    /// When the local queue is empty the owner falls back to its own steal queue:
+    /// `balance()` parks tasks there, and without the fallback they would only ever be
+    /// reachable by *other* workers - with a single worker (or busy peers) never.
     pub fn pop_local(&self) -> Option<Box<dyn Task>> {
         // Pop from front since tasks are sorted by priority (highest first)
-        self.local_queue.lock().unwrap_or_else(|e| e.into_inner()).pop_front()
+        if let Some(task) = self.local_queue.lock().unwrap_or_else(|e| e.into_inner()).pop_front() {
+            return Some(task);
+        }
+        self.steal_queue.lock().unwrap_or_else(|e| e.into_inner()).pop_front()
     }
 
     /// Steal a task from this queue (FIFO for load balancing)
